@@ -287,7 +287,7 @@ class RaisePolicy(MissingHostKeyPolicy):
 POLICIES = {"reject": (RejectPolicy, False), "autoadd": (AutoAddPolicy, True), "warning": (WarningPolicy, True),
             "custom-accept": (AcceptPolicy, True), "custom-raise": (RaisePolicy, False)}
 SHAPES = ("none", "same", "other-key-same-type", "only-other-types", "same-plus-other-type", "other-host-only",
-          "default-port-entry-only", "same-under-port-name")
+          "default-port-entry-only", "same-under-port-name", "other-key-on-later-multi-name-line", "same-on-multi-name-line")
 
 
 def sshclient(sim, secret):
@@ -319,8 +319,18 @@ def sshclient(sim, secret):
         entries.append((host, ssh.key(held)))            # matches only when port == 22
     elif shape == "same-under-port-name":
         entries.append(("[%s]:2222" % host, ssh.key(held)))   # matches only when port == 2222
+    elif shape == "other-key-on-later-multi-name-line":
+        # an alias is listed alone first; a later line lists the alias AND the name we connect to, with the same
+        # (different-from-the-server's) key: the name is known, with another key
+        hashed = False
+        entries.append(("alias.example.com", ssh.key(other_same)))
+        entries.append(("alias.example.com," + name, ssh.key(other_same)))
+    elif shape == "same-on-multi-name-line":
+        hashed = False
+        entries.append(("alias.example.com", ssh.key(held)))
+        entries.append(("alias.example.com,%s,10.9.8.7" % name, ssh.key(held)))
     # reference decision
-    matching = [k for n, k in entries if n == name]
+    matching = [k for n, k in entries if name in n.split(",")]
     if matching:
         accept = any(k.get_name() == ssh.key(held).get_name() and k.asbytes() == ssh.key(held).asbytes() for k in matching)
         decided_by = "known_hosts"
